@@ -276,6 +276,19 @@ def run_batch(cmd, requests, hang_s=5.0, env=None, mem_kb=4_000_000, label="", m
     hang is believed (a loaded machine must not turn a slow request into an alarm)"""
     replies = _run_batch(cmd, requests, hang_s, env, mem_kb, label, max_failures)
     if confirm_hangs:
+        # a worker that `died` may have died of its address-space limit, of load, or of an earlier request of
+        # the batch: the request is re-run ALONE in a fresh worker and only a death that repeats is believed
+        confirmed = 0
+        for i, r in enumerate(replies):
+            if r is not None and r.startswith("died") and confirmed < 2:
+                # (once two deaths of a batch have repeated alone the others are believed: a genuinely
+                # crashing implementation must not cost one long re-run per input)
+                again = _run_batch(cmd, [requests[i]], hang_s * 2 + 5, env, mem_kb, label, 1)
+                if again and again[0] is not None and not again[0].startswith("died") and again[0] != "hang":
+                    log("note: a worker death was not confirmed when the request ran alone (%s): %s" % (label or cmd[-1], r[:120]))
+                    replies[i] = again[0]
+                else:
+                    confirmed += 1
         for i, r in enumerate(replies):
             if r == "hang":
                 again = _run_batch(cmd, [requests[i]], hang_s * 4 + 5, env, mem_kb, label, 1)
@@ -314,6 +327,14 @@ def _run_batch(cmd, requests, hang_s=5.0, env=None, mem_kb=4_000_000, label="", 
         sent = 0
         buf = b""
         errbuf = b""
+        fatal_head = [None]      # the FIRST line of a Go fatal error / panic seen on stderr (the tail is a goroutine dump)
+
+        def _note(chunk):
+            if fatal_head[0] is None and chunk:
+                for ln in chunk.decode("utf-8", "replace").splitlines():
+                    if ln.startswith(("panic:", "fatal error:", "runtime:", "runtime/cgo:", "SIGABRT", "SIGSEGV", "SIGBUS", "signal ")):
+                        fatal_head[0] = ln
+                        break
         nxt = start
         last = time.time()
         dead = False
@@ -335,6 +356,7 @@ def _run_batch(cmd, requests, hang_s=5.0, env=None, mem_kb=4_000_000, label="", 
             if p.stderr in r:
                 try:
                     d = os.read(p.stderr.fileno(), 65536)
+                    _note(d)
                     errbuf = (errbuf + d)[-4000:]
                 except BlockingIOError:
                     pass
@@ -384,7 +406,9 @@ def _run_batch(cmd, requests, hang_s=5.0, env=None, mem_kb=4_000_000, label="", 
                 except (BlockingIOError, OSError):
                     pass
                 try:
-                    errbuf = (errbuf + (os.read(p.stderr.fileno(), 65536) or b""))[-4000:]
+                    more = os.read(p.stderr.fileno(), 65536) or b""
+                    _note(more)
+                    errbuf = (errbuf + more)[-4000:]
                 except (BlockingIOError, OSError):
                     pass
                 first = errbuf.decode("utf-8", "replace").strip().splitlines()
@@ -393,6 +417,8 @@ def _run_batch(cmd, requests, hang_s=5.0, env=None, mem_kb=4_000_000, label="", 
                     if ln.startswith(("panic:", "fatal error:", "runtime:")):
                         msg = ln
                         break
+                if fatal_head[0] is not None:
+                    msg = fatal_head[0]
                 replies[nxt] = "died " + msg[:200]
                 nxt += 1
                 failures += 1
